@@ -62,6 +62,7 @@ def cases(draw):
                                                (['get_upload_url', 'get_upload_url'] if op in ('upload', 'upload_stream') else [])))
             c['restricted'] = draw(st.booleans()) if c['target'] != 'list_buckets' else False
             c['pre_authenticated'] = draw(st.booleans()) if c['target'] == 'main' else False
+            c['warm_upload'] = draw(st.booleans())
     return c
 
 
@@ -356,6 +357,13 @@ def _run(case, work, loop):
             call('exists', 'warm-up')      # authorise and resolve the bucket before the fault plan starts
         except Exception as e:
             return Outcome(fail('harness', f'warm-up failed: {e!r}'), classes)
+    if bk == 'b2' and case.get('warm_upload') and case.get('pre_authenticated'):
+        try:
+            call('upload', 'data/ab/warm-up-object', b'w')     # an earlier successful upload on the same adapter object
+            objects['data/ab/warm-up-object'] = b'w'
+        except Exception as e:
+            return Outcome(fail('harness', f'warm-up upload failed: {e!r}'), classes)
+        classes.append('after-earlier-upload')
     if fake is not None:
         fake.fault_fn = fault_fn
         requests_before = fake.count
